@@ -31,9 +31,9 @@ def multiKeys : List String := ["server_ip_list"]
 
 /-- keys with exactly one value, in the order of the second `switch key` of `insert` -/
 def singleKeys : List (String × KeyKind) := [
-  ("basedir", .str), ("netspoc_git", .str), ("admin_emails", .str), ("checkbanner", .regexp),
-  ("systemuser", .str), ("timeout", .int), ("login_timeout", .int), ("keep_history", .int),
-  ("compress_at", .int)]
+  ("admin_emails", .str), ("basedir", .str), ("checkbanner", .regexp), ("compress_at", .int),
+  ("keep_history", .int), ("login_timeout", .int), ("netspoc_git", .str), ("systemuser", .str),
+  ("timeout", .int)]
 
 def isSpaceF (c : Char) : Bool :=
   c == ' ' || c == '\t' || c == '\n' || c == '\r' || c == '\x0b' || c == '\x0c'
@@ -113,16 +113,25 @@ def runWithConfig (b : Backend) (valid : String → Bool) (compile : String → 
 
 def kindItems : KeyKind → List Item
   | .str => []
-  | .regexp => [(3, "assign", "v7.CheckBanner, err = regexp.Compile(c1p2[0])")]
-  | .int => [(3, "call", "f2")]
+  | .regexp => [(2, "assign", "v7.CheckBanner, err = regexp.Compile(c1p2[0])")]
+  | .int => [(2, "call", "f2")]
+
+/-- the branches of a dispatch on constants, in the normal form of the translator: sorted by the
+test (`singleKeys` is kept in that order), branches that show nothing left out (the `default`
+shows nothing), `if` for the first and `elif` for the others -/
+def dispatchItems : Bool → List (String × KeyKind) → List Item
+  | _, [] => []
+  | first, k :: ks =>
+    match kindItems k.2 with
+    | [] => dispatchItems first ks
+    | its => (1, if first then "if" else "elif", "c1p1 == " ++ q k.1) :: its ++ dispatchItems false ks
 
 /-- `insert` = f1 (parameters c1p1 = key, c1p2 = values), `getInt` = f2, `getIPList` = f3 -/
 def insertDispatchItems : List Item :=
-  [(1, "switch", "c1p1")] ++
-  multiKeys.flatMap (fun k => [(2, "case", q k), (3, "call", "f3"), (3, "ret", "err")]) ++
-  [(1, "guard", "len(c1p2) != 1"), (2, "ret", "Errorf(…)"), (1, "switch", "c1p1")] ++
-  singleKeys.flatMap (fun k => (2, "case", q k.1) :: kindItems k.2) ++
-  [(2, "case", "default"), (1, "ret", "err")]
+  multiKeys.flatMap (fun k => [(1, "guard", "c1p1 == " ++ q k), (2, "call", "f3"), (2, "ret", "err")]) ++
+  [(1, "guard", "len(c1p2) != 1"), (2, "ret", "Errorf(…)")] ++
+  dispatchItems true singleKeys ++
+  [(1, "ret", "err")]
 
 /-- `words := strings.Fields(line)` is a single-assignment local: the normal form shows its
 definition wherever it is used. -/
@@ -146,10 +155,10 @@ def loadConfigSkel : List Item :=
   insertDispatchItems ++
   [ (0, "for", "range v8"),
     (1, "if", "!(len(" ++ words ++ ") == 0 || " ++ words ++ "[0][0] == '#')"),
-    (2, "guard", "len(" ++ words ++ ") < 3 || " ++ words ++ "[1] != \"=\""), (3, "continue", ""),
-    (2, "guard", "v10[" ++ words ++ "[0]]"), (3, "continue", ""),
-    (2, "call", "f1"),
-    (2, "guard", "err != nil"), (3, "ret", "nil, err"),
+    (2, "if", "!(len(" ++ words ++ ") < 3 || " ++ words ++ "[1] != \"=\")"),
+    (3, "guard", "v10[" ++ words ++ "[0]]"), (4, "continue", ""),
+    (3, "call", "f1"),
+    (3, "guard", "err != nil"), (4, "ret", "nil, err"),
     (0, "for", "range defaultVals"),
     (1, "if", "!v10[v11]"),
     (2, "call", "f1"), (2, "guard", "err != nil"), (3, "ret", "nil, err"),
